@@ -187,7 +187,7 @@ CLAIMED = {
          "xmlUnescape_escape, fuel-bounded single-pass decoder), escaped text contains neither '<' nor '>' so it cannot open or close markup "
          "(escape_no_angle); the WebVTT writer's replacement chain (regenerated from _encode_illegal_characters and pinned) is undone by a single-pass WebVTT "
          "character-reference decoder for every string (vtt_text_roundtrip) and its output contains neither '-->' nor '<', so no text can end its cue or open a tag "
-         "(vtt_text_cannot_end_cue); for every caption of text lines the paragraph content written by the DFXP writer model is the escaped lines joined by the "
+         "(vtt_text_cannot_end_cue); the cue text the SRT writer model lays out for ANY node list, cut at line feeds as the SRT block grammar does, is exactly the writer's lines and none of them is blank - no text, no run of breaks ends the block early (srt_cue_has_no_blank_line); for every caption of text lines the paragraph content written by the DFXP writer model is the escaped lines joined by the "
          "line-break markup, and cutting it there and decoding each piece gives the lines back - no text can create, hide or move a line break "
          "(dfxp_lines_roundtrip; the SAMI and legacy DFXP models write the same content, sami_legacy_same_content). Executable models of the text-serialising functions of all writers (DFXP/single/legacy _recreate_text with the open_span "
          "state, SAMI _recreate_text, WebVTT _group_cues_by_layout and escaping, whole SRT and MicroDVD documents) are compared with the implementation; "
